@@ -407,3 +407,36 @@ func classifyIf(cond bool, label string) {
 		classify(label)
 	}
 }
+
+var chdirMu sync.Mutex
+
+// inDir runs f with the process' working directory set to dir.
+func inDir(dir string, f func()) error {
+	chdirMu.Lock()
+	defer chdirMu.Unlock()
+	old, err := os.Getwd()
+	if err != nil {
+		return err
+	}
+	if err := os.Chdir(dir); err != nil {
+		return err
+	}
+	defer os.Chdir(old)
+	f()
+	return nil
+}
+
+
+// ---- exported aliases for the in-package cmd/hidi checks (overlay/cmdhidi_common_test.go) ----
+
+func NewViolation(prop, clause, sigDetail, format string, args ...interface{}) *Violation {
+	return violation(prop, clause, sigDetail, format, args...)
+}
+
+func Guard(prop, clause string, f func() *Violation) *Violation { return guard(prop, clause, f) }
+
+func Classify(label string) { classify(label) }
+
+func InDir(dir string, f func()) error { return inDir(dir, f) }
+
+func SetCurrentRun(r *Run) { curRun = r }
